@@ -24,6 +24,19 @@ impl Default for PStat {
     }
 }
 
+/// The first name /etc/passwd (or /etc/group) gives for a numeric id.
+fn name_of_id(user: bool, id: u64) -> Option<String> {
+    let txt = std::fs::read_to_string(if user { "/etc/passwd" } else { "/etc/group" }).ok()?;
+    txt.lines().find_map(|l| {
+        let f: Vec<&str> = l.split(':').collect();
+        if f.len() > 2 && f[2].parse::<u64>().ok() == Some(id) && !f[0].is_empty() && !f[0].chars().all(|c| c.is_ascii_digit()) {
+            Some(f[0].to_string())
+        } else {
+            None
+        }
+    })
+}
+
 fn sign(form: &str) -> &'static str {
     match form {
         "gt" => "+",
@@ -127,7 +140,12 @@ impl Prop for PStat {
                 };
                 n_used = json!(n);
                 let form = t["form"].as_str().unwrap_or("eq");
-                if (p == "uid" || p == "gid") && form == "eq" && n % 2 == 0 {
+                let by_name = if (p == "uid" || p == "gid") && form == "eq" && tree.len() % 2 == 0 { name_of_id(p == "uid", n) } else { None };
+                if let Some(name) = by_name {
+                    // the name the system's database gives for this id: the same test
+                    args.push(if p == "uid" { "-user".into() } else { "-group".into() });
+                    args.push(name);
+                } else if (p == "uid" || p == "gid") && form == "eq" && n % 2 == 0 {
                     // the name form with a numeric operand is the same test
                     args.push(if p == "uid" { "-user".into() } else { "-group".into() });
                     args.push(n.to_string());
@@ -194,7 +212,7 @@ impl Prop for PStat {
             0 | 1 => json!({"p": "type", "c": *rng.pick(&["d", "f", "l", "p", "s"])}),
             2 | 3 => json!({"p": "xtype", "c": *rng.pick(&["d", "f", "l", "p", "s"])}),
             4 | 5 => json!({"p": "perm", "kind": *rng.pick(&["exact", "all", "any"]), "m": *rng.pick(&[0u64, 0o644, 0o755, 0o4000, 0o4755, 0o2750, 0o1777, 0o600, 0o7777, 0o7, 0o70, 0o700, 0o500, 0o111, 0o22, 0o777])}),
-            6 => json!({"p": *rng.pick(&["uid", "gid"]), "form": form, "n": *rng.pick(&[0u64, 1, 5, 100, 1000, 54321, 54322])}),
+            6 => json!({"p": *rng.pick(&["uid", "gid"]), "form": form, "n": *rng.pick(&[0u64, 1, 1, 5, 100, 1000, 54321, 54322])}),
             7 => json!({"p": "links", "form": form, "nfrom": node, "off": rng.range(-1, 1)}),
             8 => json!({"p": "inum", "form": form, "nfrom": node, "off": rng.range(-1, 1)}),
             9 => json!({"p": "empty"}),
